@@ -401,3 +401,101 @@ func switchOf(cc *ast.CaseClause) *ast.SwitchStmt {
 	})
 	return switchIndex[cc]
 }
+
+// Region is a piece of code that runs under a condition, however that is
+// spelled: the body of an `if`, a clause of a tagless switch (condition: the
+// clause expression) or of a tagged switch (condition: tag == expression,
+// rebuilt; it carries no type information of its own, its operands do).
+type Region struct {
+	Cond ast.Expr
+	Body []ast.Stmt
+	Node ast.Node // the IfStmt or CaseClause
+}
+
+// GuardedRegions lists the regions under root (nested ones included).
+func GuardedRegions(root ast.Node) []Region {
+	var out []Region
+	ast.Inspect(root, func(n ast.Node) bool {
+		switch x := n.(type) {
+		case *ast.IfStmt:
+			out = append(out, Region{Cond: x.Cond, Body: x.Body.List, Node: x})
+		case *ast.SwitchStmt:
+			for _, cl := range x.Body.List {
+				cc := cl.(*ast.CaseClause)
+				for _, e := range cc.List {
+					cond := e
+					if x.Tag != nil {
+						cond = &ast.BinaryExpr{X: x.Tag, OpPos: e.Pos(), Op: token.EQL, Y: e}
+					}
+					out = append(out, Region{Cond: cond, Body: cc.Body, Node: cc})
+				}
+			}
+		}
+		return true
+	})
+	return out
+}
+
+// EqConst splits `X == C` (either order) where C is a constant expression.
+func EqConst(info *types.Info, cond ast.Expr) (x, c ast.Expr, ok bool) {
+	b, isB := Unparen(cond).(*ast.BinaryExpr)
+	if !isB || b.Op != token.EQL {
+		return nil, nil, false
+	}
+	if tv, has := info.Types[b.Y]; has && tv.Value != nil {
+		return b.X, b.Y, true
+	}
+	if tv, has := info.Types[b.X]; has && tv.Value != nil {
+		return b.Y, b.X, true
+	}
+	return nil, nil, false
+}
+
+// SwitchAsIfChain rewrites `switch [tag] { case a, b: …; default: … }` as the
+// equivalent if / else-if chain (synthetic nodes; the case expressions and
+// bodies are the original ones). nil when the switch has an init statement or
+// a fallthrough.
+func SwitchAsIfChain(sw *ast.SwitchStmt) ast.Stmt {
+	if sw.Init != nil {
+		return nil
+	}
+	var def *ast.CaseClause
+	var clauses []*ast.CaseClause
+	for _, cl := range sw.Body.List {
+		cc := cl.(*ast.CaseClause)
+		for _, st := range cc.Body {
+			if b, ok := st.(*ast.BranchStmt); ok && b.Tok == token.FALLTHROUGH {
+				return nil
+			}
+		}
+		if cc.List == nil {
+			def = cc
+		} else {
+			clauses = append(clauses, cc)
+		}
+	}
+	var tail ast.Stmt
+	if def != nil {
+		tail = &ast.BlockStmt{Lbrace: def.Pos(), List: def.Body, Rbrace: def.End()}
+	}
+	for i := len(clauses) - 1; i >= 0; i-- {
+		cc := clauses[i]
+		var cond ast.Expr
+		for _, e := range cc.List {
+			c := e
+			if sw.Tag != nil {
+				c = &ast.BinaryExpr{X: sw.Tag, OpPos: e.Pos(), Op: token.EQL, Y: e}
+			}
+			if cond == nil {
+				cond = c
+			} else {
+				cond = &ast.BinaryExpr{X: cond, OpPos: e.Pos(), Op: token.LOR, Y: c}
+			}
+		}
+		tail = &ast.IfStmt{If: cc.Pos(), Cond: cond, Body: &ast.BlockStmt{Lbrace: cc.Colon, List: cc.Body, Rbrace: cc.End()}, Else: tail}
+	}
+	if tail == nil {
+		return &ast.BlockStmt{}
+	}
+	return tail
+}
